@@ -884,8 +884,47 @@ def run_part(T, dirn, part, full, thorough, acc):
     stats.flush(acc, T.name)
 
 
+def k12_dense_case(L, clen, cuts, acc):
+    """KangarooTwelve, message of L bytes (several 8192-byte chunks), customization of clen bytes: update() in the pieces given by
+    `cuts` must give the one-shot output"""
+    from Crypto.Hash import KangarooTwelve
+    msg = seeded("c09/k12dense", L)
+    cust = seeded("c09/k12dense-c", clen)
+    exp = KangarooTwelve.new(data=msg, custom=cust).read(48)
+    h = KangarooTwelve.new(custom=cust)
+    a = 0
+    for c in list(cuts) + [L]:
+        h.update(msg[a:c])
+        a = c
+    got = h.read(48)
+    if got != exp:
+        acc.violation("C09/KangarooTwelve/update/segmentation-of-a-multi-chunk-message",
+                      "KangarooTwelve, %d-byte message, %d-byte customization: update() in pieces cut at %s gives %s, one call gives %s"
+                      % (L, clen, list(cuts), short(got, 16), short(exp, 16)), {"part": "k12dense", "L": L, "clen": clen, "cuts": list(cuts)},
+                      size=len(cuts) * 10 ** 6 + min(cuts))
+        return False
+    return True
+
+
+def k12_dense_worker(shard):
+    """every 2-piece cut of a multi-chunk message in [lo, hi), plus the 3-piece cuts (c, c + 8192 + 77)"""
+    acc = Acc()
+    L, clen, lo, hi = shard
+    for c in range(lo, min(hi, L + 1)):
+        acc.count("evaluations")
+        acc.count("k12_dense_cuts")
+        if not k12_dense_case(L, clen, (c,), acc):
+            break
+        if c + 8269 <= L and c % 16 == 5:
+            k12_dense_case(L, clen, (c, c + 8269), acc)
+    acc.seen("classes", ("k12dense", L, clen, lo // 4096))
+    return acc
+
+
 def worker(shard):
     """one pool for everything: shard[0] names the explorer"""
+    if shard[0] == "k12dense":
+        return k12_dense_worker(shard[1:])
     if shard[0] == "siv":
         return siv_worker(shard[1:])
     if shard[0] == "th":
@@ -1302,6 +1341,11 @@ def run(ctx):
             for first in SIV_LENS4:
                 vec.append(("siv", "boundary", klen, wn, thorough, (4, first)))
     vec += [("th", k, bits, thorough) for k in ("small", "boundary") for bits in (128, 256)]
+    # KangarooTwelve: EVERY cut of a message of 3 chunks + 1000 bytes (the chunk bookkeeping inside one update() call)
+    K12L = 3 * 8192 + 1000
+    for clen in ((0,) if not thorough else (0, 7)):
+        for lo in range(0, K12L + 1, 512):
+            vec.append(("k12dense", K12L, clen, lo, lo + 512))
     nshards = len(shards) + len(vec)
     ctx.pmap(worker, vec[::-1] + shards if thorough else shards[:64] + vec + shards[64:])
 
@@ -1466,6 +1510,8 @@ def replay(case, acc):
         T = target(_tuplify(case["spec"]), bool(case["thorough"]))
         ins = [v if isinstance(v, int) else bytes(v) for v in case["inputs"]]
         check_reference(T, None, acc, inputs=ins)
+    elif part == "k12dense":
+        k12_dense_case(case["L"], case["clen"], tuple(case["cuts"]), acc)
     elif part == "siv":
         check_siv(case["klen"], case["nonce"], [bytes(c) for c in case["comps"]], bytes(case["pt"]),
                   tuple(case["kinds"]), case["ptkind"], case["ostyle"], case["dirn"], acc)
